@@ -196,3 +196,8 @@ def run(facts, res):
             res.violation("U3", "id-field", "flatten drops %s but read adds back %s (ID_FIELD = %r)" % (sorted(removed), sorted(added), idf), fl.loc())
     else:
         res.floor("U3", "flatten / unflatten", 0, 2)
+
+
+def thorough(res):
+    from .. import engine
+    engine.sensitivity("C04", res)
